@@ -10,6 +10,27 @@ pub enum ZErr {
     Cb(usize),
 }
 
+thread_local! {
+    static CALLS: std::cell::Cell<usize> = const { std::cell::Cell::new(0) };
+}
+
+/// every zoo callback announces itself: mode "c" prints how often callbacks ran during the lexing
+pub fn called() {
+    CALLS.with(|c| c.set(c.get() + 1));
+}
+
+fn calls_reset() {
+    CALLS.with(|c| c.set(0));
+}
+
+fn calls_suffix(mode: &str) -> String {
+    if mode == "c" {
+        format!(" #{}", CALLS.with(|c| c.get()))
+    } else {
+        String::new()
+    }
+}
+
 pub trait ErrTag {
     fn tag(&self) -> String;
 }
@@ -73,6 +94,7 @@ where
 {
     let mut lex: Lexer<'s, T> = if mode == "p" { Lexer::new_partial(src) } else { Lexer::new(src) };
     let _ = trace_str();
+    calls_reset();
     let mut out = String::new();
     let mut n = 0usize;
     loop {
@@ -108,6 +130,7 @@ where
             }
         }
     }
+    out.push_str(&calls_suffix(mode));
     if mode == "t" {
         out.push_str(" |");
         out.push_str(&trace_str());
@@ -122,6 +145,7 @@ where
 {
     let mut lex: Lexer<'s, T> = if mode == "p" { Lexer::new_partial(src) } else { Lexer::new(src) };
     let _ = trace_str();
+    calls_reset();
     let mut out = String::new();
     let mut n = 0usize;
     loop {
@@ -155,6 +179,7 @@ where
             }
         }
     }
+    out.push_str(&calls_suffix(mode));
     if mode == "t" {
         out.push_str(" |");
         out.push_str(&trace_str());
